@@ -51,6 +51,8 @@ type c17Case struct {
 	// FBASNFlip: every second connection the peer advertises the opposite 4-byte-ASN capability (a different router
 	// behind the same address, a peer restarted with another configuration)
 	FBASNFlip bool `json:"fbasn_flip,omitempty"`
+	// CapLayout: how a 4-byte capable peer lays out the capabilities of its OPEN (see openBytes)
+	CapLayout int `json:"cap_layout,omitempty"`
 }
 
 var c17Prefixes = []string{"10.9.0.1/32", "10.9.0.2/32", "10.9.1.0/24", "10.9.2.128/25", "10.9.0.0/16"}
@@ -97,6 +99,7 @@ func genC17(rt *rapid.T) c17Case {
 	c.CloseWhileDown = rapid.IntRange(0, 11).Draw(rt, "closeWhileDown") == 0
 	c.SrcAddr = rapid.IntRange(0, 2).Draw(rt, "srcAddr") == 0
 	c.FBASNFlip = rapid.IntRange(0, 2).Draw(rt, "fbasnFlip") == 0
+	c.CapLayout = rapid.IntRange(0, 3).Draw(rt, "capLayout")
 	return c
 }
 
@@ -131,6 +134,7 @@ type c17Peer struct {
 	speakerASN uint32
 	fbasn      bool
 	flip       bool
+	capLayout  int
 	bad        int
 	stopped    bool
 	refuse     bool // hang up on new connections before answering the OPEN
@@ -173,7 +177,20 @@ func (p *c17Peer) serve() {
 func (p *c17Peer) openBytes(asn uint32, fbasn bool) []byte {
 	var opts []byte
 	if fbasn {
-		opts = []byte{2, 6, 65, 4, byte(asn >> 24), byte(asn >> 16), byte(asn >> 8), byte(asn)}
+		four := []byte{65, 4, byte(asn >> 24), byte(asn >> 16), byte(asn >> 8), byte(asn)}
+		var caps []byte
+		switch p.capLayout % 4 {
+		case 0: // only the 4-byte-ASN capability
+			caps = four
+		case 1: // route refresh (no value) first - the usual layout of FRR, BIRD, GoBGP
+			caps = append([]byte{2, 0}, four...)
+		case 2: // multiprotocol, route refresh, enhanced route refresh, then the 4-byte ASN
+			caps = append([]byte{1, 4, 0, 1, 0, 1, 2, 0, 70, 0}, four...)
+		case 3: // the 4-byte ASN in a second optional parameter
+			opts = []byte{2, 2, 2, 0}
+			caps = four
+		}
+		opts = append(opts, append([]byte{2, byte(len(caps))}, caps...)...)
 	} else {
 		opts = []byte{2, 6, 1, 4, 0, 1, 0, 1} // some capability so that also older speakers accept the OPEN length
 	}
@@ -349,7 +366,7 @@ func runC17(c c17Case, tr *vw.Trace) *vw.Violation {
 	if !c.IBGP {
 		peerASN = 64999
 	}
-	p := &c17Peer{ln: ln, myASN: peerASN, speakerASN: speakerASN, fbasn: c.FBASN, flip: c.FBASNFlip, bad: c.BadFirst}
+	p := &c17Peer{ln: ln, myASN: peerASN, speakerASN: speakerASN, fbasn: c.FBASN, flip: c.FBASNFlip, capLayout: c.CapLayout, bad: c.BadFirst}
 	if c.FBASNFlip {
 		tr.Class("peer-capability-differs-between-connections")
 	}
